@@ -47,6 +47,15 @@ def new_frames(d, var, rng):
         for i, r in enumerate(U):
             new.loc[r, var] = f"NEW{i % 2}"
         out.append((new, seen, U))
+        if U == [0, 3]:
+            # the same new data stored as a pandas Categorical column (unordered, and ordered with permuted categories)
+            for ordered in (False, True):
+                nc, sc = new.copy(), seen.copy()
+                cats_n = sorted(set(nc[var]), key=str, reverse=ordered)
+                cats_s = sorted(set(sc[var]), key=str, reverse=ordered)
+                nc[var] = pd.Categorical(nc[var], categories=cats_n, ordered=ordered)
+                sc[var] = pd.Categorical(sc[var], categories=cats_s, ordered=ordered)
+                out.append((nc, sc, U))
     return out
 
 
@@ -196,7 +205,8 @@ def _chunk(task):
 
 def PROOFS():
     from ..contracts import config_c, variable_c, terms_c, matrices_c
-    return [("vf.contracts.config_c", config_c.FUNCTIONS), ("vf.contracts.variable_c", [f for f in variable_c.FUNCTIONS if f.endswith("eval_new_data_categoric")]),
+    return [("vf.contracts.config_c", config_c.FUNCTIONS), ("vf.contracts.variable_c", [f for f in variable_c.FUNCTIONS if f.endswith("eval_new_data_categoric")] +
+             ["formulae.terms.variable.Variable.eval_new_data"]),        # the dispatcher: a categorical variable always goes through the policy
             ("vf.contracts.terms_c", ["formulae.terms.terms.GroupSpecificTerm.eval_new_data"]),
             ("vf.contracts.matrices_c", ["formulae.matrices.GroupEffectsMatrix.evaluate_new_data"])]
 
